@@ -485,6 +485,7 @@ class FuncRun:
         ob.decl.update(self.gdecl)
         ob.bounds = dict(st.bounds)
         ob.bounds.update(self.gbounds)
+        ob.run = self
         self.obligations.append(ob)
 
     def note_bound(self, st, g):
